@@ -82,6 +82,7 @@ struct Call
     long invoke = -1, ret = -1, entry = -1, exit = -1;
     int caller_tid = -1, entry_tid = -1;
     std::vector<long long> wall, mono;
+    long long wall_in = 0, wall_out = 0; // the wall clock when the call began / had returned
     Content ec;
     int n_entry = 0, n_exit = 0;
     std::string text; // expected message text
@@ -241,6 +242,7 @@ Verdict judge(const Plan &plan, const sim::Shm *shm, const ChildExit &ex, const 
             if (it != calls.end()) {
                 it->second.invoke = i;
                 it->second.caller_tid = e.tid;
+                it->second.wall_in = e.b;
             }
             break;
         }
@@ -248,6 +250,7 @@ Verdict judge(const Plan &plan, const sim::Shm *shm, const ChildExit &ex, const 
             auto it = calls.find((int)e.a);
             if (it != calls.end()) {
                 it->second.ret = i;
+                it->second.wall_out = e.b;
                 std::string s = sim::ev_str(shm, e);
                 auto parts = split(s, ';');
                 for (auto &part : parts) {
@@ -390,6 +393,10 @@ Verdict judge(const Plan &plan, const sim::Shm *shm, const ChildExit &ex, const 
     }
 
     // ---- content at entry -----------------------------------------------------------
+    bool clock_jumps = false;
+    for (auto &o : plan.main_ops)
+        if (o.kind == "clock_jump")
+            clock_jumps = true;
     int null_normalised = 0;
     for (auto &kv : calls) {
         Call &c = kv.second;
@@ -426,6 +433,12 @@ Verdict judge(const Plan &plan, const sim::Shm *shm, const ChildExit &ex, const 
             if (!tok && !c.wall.empty())
                 why << " time() " << ec.time_ms << " is none of the " << c.wall.size()
                     << " wall-clock values the caller read during the call";
+            // the caller read no wall clock at all: however the time is obtained, it is the time of the
+            // call (not judged when the plan lets the wall clock jump)
+            if (c.wall.empty() && !clock_jumps
+                && (ec.time_ms < c.wall_in / 1000000 || ec.time_ms > c.wall_out / 1000000))
+                why << " time() " << ec.time_ms << " lies outside the call (" << c.wall_in / 1000000 << ".."
+                    << c.wall_out / 1000000 << " ms)";
             bool sok = false;
             for (long long m : c.mono)
                 if (m == ec.steady_ns)
